@@ -41,6 +41,7 @@ def main():
         prop = a.args[0]
         mod = importlib.import_module("checks." + prop.lower())
         run = common.Run(prop, a.tier, seed)
+        run.start_clean()
         try:
             mod.check(run)
         except Exception as e:  # a crash of the machinery is reported as such, never as a pass
@@ -50,10 +51,36 @@ def main():
                           "what": "the check could not complete; see stderr"}, no_input=True)
         return run.finish()
     if a.cmd == "replay":
+        # print the stored case, then run the check again with the same seed and tier (against /repo's current tree) and
+        # report whether a violation of the same clause with the same input comes back
         import json
         d = json.load(open(a.args[0]))
+        print(json.dumps(d, indent=1)[:6000])
         mod = importlib.import_module("checks." + d["property"].lower())
-        return mod.replay(d)
+        run = common.Run(d["property"], d.get("tier", "quick"), d.get("seed", seed), rerun=True)
+        run.start_clean()
+        try:
+            mod.check(run)
+        except Exception as e:
+            import traceback
+            traceback.print_exc()
+            print("REPLAY: the check could not complete")
+            return 2
+        ignore = {"property", "seed", "tier"}
+        key = {k: v for k, v in d.items() if k not in ignore}
+        same, same_clause = [], []
+        for p, _ in run.violations:
+            e = json.load(open(p))
+            if {k: v for k, v in e.items() if k not in ignore} == key: same.append(p)
+            elif e.get("clause") == d.get("clause") and d.get("clause") is not None: same_clause.append(p)
+        if same:
+            print("REPLAY: reproduced (identical case): %s" % same[0])
+            return 1
+        if same_clause:
+            print("REPLAY: the same clause fails again on %d other input(s), e.g. %s" % (len(same_clause), same_clause[0]))
+            return 1
+        print("REPLAY: not reproduced on the current tree (%d other violations)" % len(run.violations))
+        return 0
     ap.error("unknown command")
 
 
